@@ -144,7 +144,8 @@ func (br *xmpReader) readAttrValue(tag *Tag) (buf []byte, err error) {
 
 		if buf[0] == '=' && (buf[1] == '"' || buf[1] == '\'') {
 			delim := buf[1]
-			if b := bytes.IndexByte(buf[i:], delim); b >= 0 {
+			// the two bytes after the closing quote decide how the tag goes on: they must be inside the window too
+			if b := bytes.IndexByte(buf[i:], delim); b >= 0 && i+b+2 < len(buf) {
 				i += b
 				d = i + 1
 				if buf[i+1] == '>' {
